@@ -97,7 +97,11 @@ func genOps(r *vf.Rand, kind zoo.Kind, n int) []op {
 				}
 				_ = h.SetExtension(twccID, ext)
 			}
-			o := op{kind: 0, stream: st, hdr: h, payload: gen.Payload(r, max(8, gen.PayloadLen(r, 1200)), uint64(i+1))}
+			plen := max(8, gen.PayloadLen(r, 1200))
+			if r.Chance(0.06) {
+				plen = r.Pick(1460, 1461, 1500, 2000, 3000) // larger than the pooled buffers of some members
+			}
+			o := op{kind: 0, stream: st, hdr: h, payload: gen.Payload(r, plen, uint64(i+1))}
 			for _, id := range h.GetExtensionIDs() {
 				o.exts = append(o.exts, extSpec{id, append([]byte(nil), h.GetExtension(id)...)})
 			}
@@ -223,7 +227,7 @@ func play(c *vf.Case, kind zoo.Kind, optSeed *vf.Rand, ops []op, scribble bool) 
 		var shared rtp.Header
 		csrcBuf := make([]uint32, 15)
 		extBuf := make([]byte, 4096)
-		payBuf := make([]byte, 2000)
+		payBuf := make([]byte, 4000)
 		readBuf := make([]byte, 1500)
 		rtcpBuf := make([]byte, 1500)
 
